@@ -254,10 +254,11 @@ func (c *FCGIClient) writePairs(recType uint8, pairs map[string]string) error {
 	b := make([]byte, 8)
 	nn := 0
 	for k, v := range pairs {
-		m := 8 + len(k) + len(v)
+		// the size of the pair as it is encoded: a length of up to 127 takes one byte, a longer one four
+		m := encodedSizeLen(len(k)) + encodedSizeLen(len(v)) + len(k) + len(v)
 		if m > maxWrite {
 			// param data size exceed 65535 bytes"
-			vl := maxWrite - 8 - len(k)
+			vl := maxWrite - encodedSizeLen(len(k)) - 4 - len(k)
 			v = v[:vl]
 		}
 		n := encodeSize(b, uint32(len(k)))
@@ -280,6 +281,14 @@ func (c *FCGIClient) writePairs(recType uint8, pairs map[string]string) error {
 	}
 	w.Close()
 	return nil
+}
+
+// encodedSizeLen is the number of bytes encodeSize uses for size.
+func encodedSizeLen(size int) int {
+	if size > 127 {
+		return 4
+	}
+	return 1
 }
 
 func encodeSize(b []byte, size uint32) int {
